@@ -109,3 +109,106 @@ def struct_templates():
     t.append("def test(a: Qint[2]) -> Qint[4]:\n    return a * a")
     t.append("def test(a: Qint[2], b: Qint[2]) -> Qint[4]:\n    return (a + b) * 2")
     return t
+
+
+# ---------------------------------------------------------------- C01 generators
+def rand_int_expr(rng, vars_, depth):
+    """Integer-valued expression over Qint variables ((name, width) list) and constants."""
+    if depth == 0 or rng.random() < 0.2:
+        if rng.random() < 0.75:
+            return rng.choice(vars_)[0]
+        return str(rng.choice([0, 1, 2, 3, 4, 5, 6, 7, 10, 12, 14, 15]))
+    k = rng.choice(["+", "+", "-", "*", "&", "|", "^", "<<", ">>", "~", "%"])
+    sub = lambda: rand_int_expr(rng, vars_, depth - 1)
+    if k in ("<<", ">>"):
+        return f"({rand_var_expr(rng, vars_, depth - 1)} {k} {rng.randint(0, 3)})"
+    if k == "~":
+        return f"(~{rand_var_expr(rng, vars_, depth - 1)})"
+    if k == "%":
+        return f"({rand_var_expr(rng, vars_, depth - 1)} % {rng.choice([1, 2, 4, 8])})"
+    if k == "*":
+        a = rand_var_expr(rng, vars_, min(1, depth - 1))
+        b = rng.choice([rand_var_expr(rng, vars_, 0), str(rng.choice([0, 1, 2, 3, 4, 5, 6, 10, 12, 14]))])
+        return f"({a} * {b})"
+    a, b = sub(), sub()
+    if a.isdigit() and b.isdigit():
+        a = rng.choice(vars_)[0]
+    return f"({a} {k} {b})"
+
+
+def rand_var_expr(rng, vars_, depth):
+    e = rand_int_expr(rng, vars_, depth)
+    return rng.choice(vars_)[0] if e.isdigit() else e
+
+
+def rand_cond(rng, vars_, bvars, depth):
+    k = rng.choice(["cmp", "cmp", "bool", "and", "or", "not"])
+    if depth == 0 or k == "cmp":
+        a = rand_var_expr(rng, vars_, max(0, depth - 1))
+        b = rand_int_expr(rng, vars_, max(0, depth - 1))
+        return f"({a} {rng.choice(CMP)} {b})"
+    if k == "bool" and bvars:
+        return rng.choice(bvars)
+    if k == "not":
+        return f"(not {rand_cond(rng, vars_, bvars, depth - 1)})"
+    op = "and" if k == "and" else "or"
+    return f"({rand_cond(rng, vars_, bvars, depth - 1)} {op} {rand_cond(rng, vars_, bvars, depth - 1)})"
+
+
+def int_program(rng):
+    """Random typed program over 1-3 Qint arguments of mixed widths (<= 10 input bits)."""
+    widths = [2, 2, 3, 4, 4]
+    vs, total = [], 0
+    for i in range(rng.randint(1, 3)):
+        w = rng.choice(widths)
+        if total + w > 9:
+            break
+        vs.append((chr(ord("a") + i), w))
+        total += w
+    bvars = ["p"] if rng.random() < 0.4 else []
+    sig = ", ".join(f"{n}: Qint[{w}]" for n, w in vs) + ("".join(f", {b}: bool" for b in bvars))
+    kind = rng.choice(["expr", "expr", "cond", "ifexp", "stmts", "loop"])
+    rw = rng.choice([2, 4, 4, 8])
+    if kind == "expr":
+        return f"def test({sig}) -> Qint[{rw}]:\n    return {rand_var_expr(rng, vs, 3)}"
+    if kind == "cond":
+        return f"def test({sig}) -> bool:\n    return {rand_cond(rng, vs, bvars, 2)}"
+    if kind == "ifexp":
+        v = rng.choice(vs)[0]
+        # both branches start from the same variable so that they have the same type
+        return (f"def test({sig}) -> Qint[{rw}]:\n    return ({v} + {rng.randint(0, 3)}) if {rand_cond(rng, vs, bvars, 1)} "
+                f"else ({v} ^ {rng.randint(0, 3)})")
+    if kind == "stmts":
+        v = rng.choice(vs)[0]
+        return (f"def test({sig}) -> Qint[{rw}]:\n    t = {rand_var_expr(rng, vs, 2)}\n    u = t + {v}\n"
+                f"    if {rand_cond(rng, vs, bvars, 1)}:\n        u = u + 1\n    else:\n        u = u ^ 1\n    return u")
+    n = rng.randint(1, 3)
+    v = rng.choice(vs)[0]
+    return (f"def test({sig}) -> Qint[{rw}]:\n    s = Qint{rw}(0)\n    for i in range({n}):\n        s = s + {v} + i\n    return s")
+
+
+def malformed_programs():
+    """Programs outside the documented subset: each must be rejected, or (if the
+    implementation accepts it) translated to what Python computes."""
+    return [
+        "def test(a: Qint[4], b: Qint[4]) -> bool:\n    return a < b < 3",
+        "def test(a: Qint[4], b: Qint[2]) -> Qint[4]:\n    return a << b",
+        "def test(a: Qint[4]) -> Qint[4]:\n    return a + c",
+        "def test(a: Qint[4]) -> Qint[4]:\n    return a + (-1)",
+        "def test(a: Qint[4]) -> bool:\n    return a > -1",
+        "def test(a: Qint[4]) -> Qint[4]:\n    return a // 2",
+        "def test(a: Qint[4]) -> Qint[4]:\n    while a > 2:\n        a = a - 1\n    return a",
+        "def test(a: Qint[4]) -> Qint[4]:\n    return abs(a)",
+        "def test(a: bool, b: Qint[2]) -> bool:\n    return a == b",
+        "def test(a: bool) -> Qint[2]:\n    return a",
+        "def test(a: Qint[2]) -> bool:\n    return a",
+        "def test(a: Qint[2], b: Qint[2]) -> Qint[2]:\n    return a / b",
+        "def test(a: Qint[4]) -> Qint[4]:\n    return a % 3",
+        "def test(a: Qlist[Qint[2], 2]) -> Qint[2]:\n    return a[2]",
+        "def test(a: Qint[2]) -> Qint[2]:\n    return len(a)",
+        "def test(a: Qint[4]) -> Qint[4]:\n    return a if a else 0",
+        "def test(a: Tuple[bool, bool], b: Tuple[bool, bool]) -> bool:\n    return a < b",
+        "def test(a: Qint[2]) -> Qint[2]:\n    return [a, a][0:1]",
+        "def test(a: Qint[2]) -> Qint[2]:\n    return (lambda x: x)(a)",
+        "def test(a: Qint[4]) -> Qint[4]:\n    return a.bit_length()",
+    ]
